@@ -253,20 +253,34 @@ def direct_cases(ctx):
 def pipeline_cases(ctx):
     rng = ctx.rng
     import h5py
-    for k in range(ctx.n(4, 80)):
+    nbase = ctx.n(4, 80)
+    sweep = [("podGac", j) for j in range(len(filegen.PLATFORMS["pod"]))] + [("klmGac", j) for j in range(len(filegen.PLATFORMS["klm"]))]
+    for k in range(nbase + len(sweep)):
         fmt = rng.choice(["klmGac", "podGac"])
         if k < 2:
             fmt = ("klmGac", "podGac")[k]
         n = 16
         start_ms = ydm_to_ms(2002, 187, 68700000) if fmt == "klmGac" else ydm_to_ms(2000, 322, 3600000)
         crossing = k % 2 == 1
+        plat = None
+        if k >= nbase:
+            # PLATFORM SWEEP: one whole-pass-and-part request pair for every spacecraft of either family, on a date of its life
+            fmt, plat = sweep[k - nbase]
+            sid, pcode, _nm, (yy, dd) = filegen.PLATFORMS[filegen.FMT[fmt]["family"]][plat]
+            start_ms = ydm_to_ms(yy, dd, 3600000 + 1000 * plat)
+            crossing = False
         if crossing:
             # the pass crosses UTC midnight (after line index 1..n-3): the midnight attribute of every file written from
             # this reader - the first and the later ones - is the line's position among the rows of THAT file
             day = (2002, 187) if fmt == "klmGac" else (2000, 321)
             start_ms = ydm_to_ms(day[0], day[1], 86400000 - 500 * rng.randint(2, n - 2) - rng.choice([0, 1, 250]))
         tp = timesgen.TimePass(fmt, list(range(1, n + 1)), start_ms)
-        b = tp.build(ctx, rng)
+        if plat is not None and fmt == "podGac":
+            b = tp.build(ctx, rng, pod_epoch=filegen.pod_epoch_of(yy, dd))
+        else:
+            b = tp.build(ctx, rng)
+        if plat is not None:
+            b.sat_id, b.plat = sid, pcode
         lead, trail = rng.choice([0, 2]), rng.choice([0, 1])
         bit = 1 << 31
         b.quality[:lead] = bit
@@ -295,7 +309,7 @@ def pipeline_cases(ctx):
             shutil.rmtree(out, ignore_errors=True)
             os.makedirs(out)
             payload = {"fmt": fmt, "lead": lead, "trail": trail, "start": start, "end": end, "stream": "pipeline",
-                       "requests_on_this_reader": requests[:nreq + 1], "start_ms": start_ms}
+                       "requests_on_this_reader": requests[:nreq + 1], "start_ms": start_ms, "platform": plat}
             rows = expected_rows(n, lead, trail, start, end)
             try:
                 with warnings.catch_warnings():
@@ -315,9 +329,10 @@ def pipeline_cases(ctx):
                 continue
             with warnings.catch_warnings():
                 warnings.simplefilter("ignore")
-                ch = r.get_calibrated_channels()
+                ch = np.asarray(r.get_calibrated_channels())
                 if ch.shape[-1] == 5:
-                    ch = r._get_calibrated_channels_uniform_shape()
+                    # the six-slot layout of the files, laid out here (not by the reader): POD channel 3 in the 3b slot
+                    ch = np.stack([ch[:, :, 0], ch[:, :, 1], np.full(ch.shape[:2], np.nan), ch[:, :, 2], ch[:, :, 3], ch[:, :, 4]], axis=2)
                 lons, lats = r.get_lonlat()
                 sat_azi, sat_zen, sun_azi, sun_zen, rel_azi = r.get_angles()
                 times = np.asarray(r.get_times()).astype("datetime64[ms]").astype(np.int64)
@@ -363,8 +378,9 @@ def pipeline_cases(ctx):
                 ctx.violation("%s Reader.save(%d, %d)%s: midnight line attribute %r, expected %r (the date of the returned times changes after "
                               "line index %s; rows %d..%d written)" % (fmt, start, end, "" if nreq == 0 else " (request no. %d on this reader)" % (nreq + 1),
                                                                      mid_attr, want_mid, mid, rows[0], rows[-1]), payload, cls="pipeline-midnight")
-            ctx.case((fmt, lead, trail, start, end, nreq, crossing), nontrivial=True,
-                     branch="pipeline/rows/%s/%s" % ("crossing" if crossing else "same-day", "first" if nreq == 0 else "later"))
+            ctx.case((fmt, lead, trail, start, end, nreq, crossing, plat), nontrivial=True,
+                     branch=("pipeline/rows/%s/%s" % ("crossing" if crossing else "same-day", "first" if nreq == 0 else "later"))
+                     if plat is None else "pipeline/platform-sweep")
 
 
 def run(ctx):
